@@ -15,6 +15,11 @@
 (*                                        whether the returned number equals *)
 (*                                        the sum of the ROOT factors at the *)
 (*                                        accumulated assignment            *)
+(* A conditional factor used STAND-ALONE is the one-factor instance: the    *)
+(* root is the factor, its variables are its own variable (1) and its       *)
+(* parents (2..N, which have no factor of their own: parents = <<>>); the   *)
+(* harness logs the same events for it (props/c01.py factor_lineages).      *)
+(* `malformed` says that the call carried a keyword that names no variable. *)
 (* Variable names are mapped to 1..N by the recorder (position in the root). *)
 (* The specification state is JointCond's: for every live object the set of *)
 (* fixed variables, from which kinds / open parameters / shape / token      *)
